@@ -421,7 +421,7 @@ def run(tier: str, seed: int) -> int:
 
 
 def replay(data) -> int:
-    case = {k: v for k, v in data["case"].items() if not k.startswith("_")}
+    case = dict(data["case"])
     res = core.run_forked([case], worker)[0]
     print("status:", res.status, res.note)
     for v in res.violations:
